@@ -53,7 +53,7 @@ func decodeVia(ep entryPoint, input []byte, def lazyproto.Def, opts ...lazyproto
 }
 
 func runC13(cfg *config, res *monitor.Result) {
-	n := 6000
+	n := 30000
 	if cfg.thorough() {
 		n = 300000
 	}
